@@ -19,6 +19,7 @@ import (
 type robWorld struct {
 	w            *world.World
 	known, child uint32
+	grand        uint32 // "pivoting": the agent behind the child
 	kk, kc       refdemon.Keys
 	req          uint32
 	state        string
@@ -60,6 +61,7 @@ func newRobWorld(env Env, state string, service bool, salt int) *robWorld {
 		b2 := &refdemon.Buf{}
 		b2.I32(refdemon.PivotSmbConnect).I32(1).Bytes(refdemon.Register(g, gk, refdemon.DefaultMeta("g")))
 		w.Request(refdemon.Packages(rw.child, rw.kc, []refdemon.Sub{{Cmd: refdemon.CmdPivot, Body: b2.B}}))
+		rw.grand = g
 	}
 	return rw
 }
@@ -174,6 +176,10 @@ func RunRobust(behs [][]Step, tr *Trace, env Env, sum *Summary) {
 		req := uint32(0x1234)
 		if a := w.Agent(id); a != nil && s("state") != "fresh" {
 			req = rw.issue(id)
+		}
+		// two hops: a task for the deepest agent waits in the first hop's queue, wrapped twice
+		if rw.grand != 0 && w.Agent(rw.grand) != nil {
+			rw.issue(rw.grand)
 		}
 		body := robBody(s("shape"), n("sub"), rng, rw.child)
 		var pkt []byte
